@@ -108,11 +108,11 @@ func (c *evalCtx) val(k string) (*D, error) {
 	var d *D
 	switch e.Kind {
 	case SFunc:
-		id, ok := c.ids[e.Fn.Name]
+		id, ok := c.ids[e.Fn.TraceName()]
 		if !ok {
-			return nil, fmt.Errorf("value of %s is needed before its provider %s ran", k, e.Fn.Name)
+			return nil, fmt.Errorf("value of %s is needed before its provider %s ran", k, e.Fn.TraceName())
 		}
-		d = mintD(e.T, id, "fn:"+e.Fn.Name)
+		d = mintD(e.T, id, "fn:"+e.Fn.TraceName())
 	case SParam:
 		if e.Param >= len(c.args) {
 			return nil, fmt.Errorf("no argument %d logged", e.Param)
